@@ -49,6 +49,7 @@ NICE_SUPPORTS = [[-2.0, 2.0], [0.0, 200.0], [-10.0, 10.0], [0.0, 1.0], [-1.0, 1.
 GAMMAS = [0.0, 0.5, 0.9, 0.99, 1.0]
 PRIOR_EPS = [1e-6, 1e-3, 0.05, 0.5]
 REWARD_KINDS = ["atom", "shift", "in", "lo", "hi", "edge", "free"]
+EPS32 = float(np.finfo(np.float32).eps)
 DQN_LOSS_ARGS = ["states", "actions", "rewards", "next_states", "dones", "gamma"]
 
 
@@ -278,20 +279,27 @@ def check_projection(ctx, agent, batch, rows, g, case, kind):
     mass = proj.sum(1)
     mean = (proj * z[None, :]).sum(1)
     scale = max(1.0, abs(vmin), abs(vmax))
+    # float32 index arithmetic: b = (t_z - v_min) / delta_z carries an absolute error of a few eps32 * (N-1); the two weights of
+    # an atom still add up to exactly one, but a target atom clipped to v_max may spill that much past the last atom
+    tol_mass = 1e-5 + 4 * EPS32 * (n - 1)
+    tol_mean = 1e-5
     best = None
-    for name, na, src in cands:
+    for name, na, src in cands:  # first candidate that satisfies both laws; report against the online-greedy one otherwise
         smass = src.sum(1)
         smean = clipped_mean(src, r, d, g, vmin, vmax, n)
         e_mass = np.abs(mass - smass) / np.maximum(1.0, smass)
         e_mean = np.abs(mean - smean) / (scale * np.maximum(1.0, smass))
-        rec = (float(max(e_mass.max(), e_mean.max())), name, e_mass, e_mean, smass, smean)
-        if best is None or rec[0] < best[0]:
+        rec = (name, e_mass, e_mean, smass, smean)
+        if best is None:
             best = rec
-    _, name, e_mass, e_mean, smass, smean = best
+        if e_mass.max() <= tol_mass and e_mean.max() <= tol_mean:
+            best = rec
+            break
+    name, e_mass, e_mean, smass, smean = best
     ctx.label("conservation_err" + _bucket(max(e_mass.max(), e_mean.max())))
     if name != "online":
         ctx.label("greedy-by-target-accepted")
-    if e_mass.max() > 1e-5:
+    if e_mass.max() > tol_mass:
         i = int(e_mass.argmax())
         if abs(mass[i]) < 1e-5 * smass[i]:
             cls = "mass_vanishes"
@@ -304,11 +312,10 @@ def check_projection(ctx, agent, batch, rows, g, case, kind):
                  "target network's distribution of the greedy next action", row=i, projected_mass=mass.tolist(),
                  source_mass=smass.tolist(), rewards=r.tolist(), dones=d.tolist(), gamma=g, atoms=n, v_min=vmin, v_max=vmax,
                  projection_row=proj[i].tolist(), kind=kind)
-    elif e_mean.max() > 1e-5:
+    elif e_mean.max() > tol_mean:
         i = int(e_mean.argmax())
         # which ingredient of the target is not honoured?  (semantic class of the disagreement, from the reference model)
-        alt = {"done_mask_ignored": clipped_mean(best_src(cands, name), r, 0 * d, g, vmin, vmax, n),
-               "discount_not_applied_as_given": clipped_mean(best_src(cands, name), r, d, case["gamma"], vmin, vmax, n)}
+        alt = {"done_mask_ignored": clipped_mean(best_src(cands, name), r, 0 * d, g, vmin, vmax, n)}
         cls = "mean_differs"
         for kname, val in alt.items():
             if np.abs(mean - val).max() / scale <= 1e-5 * max(1.0, smass.max()):
@@ -456,7 +463,7 @@ def run_priorities(case, ctx):
                 ctx.fail(f"C18/priorities/{mode}/not_one_priority_per_sample", f"new priorities have shape {got.shape}, batch has {B} rows", **det)
                 continue
             errs = [(float((np.abs(got - eps - want) / np.maximum(1.0, np.abs(want))).max()), lab, want) for lab, want in cands]
-            err, lab, want = min(errs, key=lambda t: t[0])
+            err, lab, want = next((e for e in errs if e[0] <= 1e-4), errs[0])
             ctx.label("cross_entropy_err" + _bucket(err))
             if err > 1e-4:
                 if np.abs(got - want).max() <= 1e-4 * max(1.0, np.abs(want).max()) and eps > 1e-3:
@@ -472,7 +479,7 @@ def run_priorities(case, ctx):
                 ctx.label("greedy-by-target-accepted")
         else:
             errs = [(abs(float(loss) - float(want.mean())) / max(1.0, abs(float(want.mean()))), lab, want) for lab, want in cands]
-            err, lab, want = min(errs, key=lambda t: t[0])
+            err, lab, want = next((e for e in errs if e[0] <= 1e-4), errs[0])
             if err > 1e-4:
                 ctx.fail(f"C18/loss/{mode}/not_the_mean_cross_entropy_of_the_projection", "the loss learn() trains on (per=False) differs from "
                          "the mean cross-entropy between the canonical projection and the online log-distribution of the taken action",
@@ -545,10 +552,10 @@ PROPERTY = Property(
           "target atom clipped or exactly on an atom, and online != target; distinct by (atoms, support, gamma, n, B, mode, per, row classes)"),
     obligations=[
         Obligation("projection_conserves", run_projection, strategy=case_strategy("projection"),
-                   examples={"quick": 36, "thorough": 500}, shards={"quick": 5, "thorough": 16},
+                   examples={"quick": 150, "thorough": 1500}, shards={"quick": 5, "thorough": 16},
                    shrink_budget={"quick": 80, "thorough": 400}),
         Obligation("priorities_cross_entropy", run_priorities, strategy=case_strategy("priorities"),
-                   examples={"quick": 36, "thorough": 500}, shards={"quick": 5, "thorough": 16},
+                   examples={"quick": 150, "thorough": 1500}, shards={"quick": 5, "thorough": 16},
                    shrink_budget={"quick": 80, "thorough": 400}),
     ],
     assumptions=["batches have exactly agent.batch_size rows, reward/done (B,1), built through Transition + ReplayBuffer; n-step batch shares obs/action",
